@@ -1,6 +1,6 @@
 module verifharness
 
-go 1.18
+go 1.20
 
 require (
 	github.com/bytedance/sonic v0.0.0
